@@ -27,6 +27,8 @@ mod task;
 #[cfg(test)]
 mod tests;
 pub mod timing;
+#[cfg(all(test, loom, feature = "verif-hooks"))]
+mod verif_wake;
 pub mod ws;
 
 use crate::frame::{BindPayload, BindType, Frame};
